@@ -89,3 +89,71 @@ func runN2(c *core.Ctx) {
 		c.Undecided("optdec/null-element", token.NoPos, "no typed element conversion found in the container fast paths")
 	}
 }
+
+// N5: `null` is not a key. The integer-key fast paths of optdec parse the key text with
+// Node.ParseI64 / ParseU64. A JSON object key is a string; the text null has no special meaning
+// there, so the parsers must not map it to 0 (the `,string` field decoders, where "null" does
+// mean null, test for it themselves before parsing).
+//
+// N6: AsByte (elements of a []byte written as a JSON array) accepts unsigned nodes only.
+
+func init() {
+	register(&core.Rule{ID: "N5", Min: 2, Arm64: true,
+		Doc: "optdec.Node.ParseI64 / ParseU64, the key parsers of the integer-keyed map decoders, contain no comparison with the text \"null\" that yields a value: `{\"null\":1}` into map[int64]int is an error in the default decoder and in encoding/json.",
+		Run: runN5})
+	register(&core.Rule{ID: "N6", Min: 1, Arm64: true,
+		Doc: "optdec.Node.AsByte succeeds only for the unsigned node kind (KUint): a branch that accepts KSint lets `-0` through as a byte, which every other unsigned destination, the default decoder and encoding/json reject.",
+		Run: runN6})
+}
+
+func runN5(c *core.Ctx) {
+	p := c.Prog
+	pk := p.Pkg("internal/decoder/optdec")
+	for _, name := range []string{"ParseI64", "ParseU64"} {
+		fd := core.FuncDecl(pk, "Node", name)
+		cn := "internal/decoder/optdec.(Node)." + name + "/null-is-not-a-key"
+		if fd == nil || fd.Body == nil {
+			c.Undecided(cn, token.NoPos, "not found")
+			continue
+		}
+		c.Analysed(core.FuncName(pk, fd))
+		var bad token.Pos
+		ast.Inspect(fd.Body, func(n ast.Node) bool {
+			if be, ok := n.(*ast.BinaryExpr); ok && be.Op == token.EQL {
+				if exprStr(be.Y) == `"null"` || exprStr(be.X) == `"null"` {
+					bad = be.Pos()
+				}
+			}
+			return true
+		})
+		if bad != token.NoPos {
+			c.Bad(cn, bad, "%s maps the key text null to 0: `{\"null\":1}` decodes to a map with key 0 under the alternative decoder, while the default decoder and encoding/json report an error", name)
+		} else {
+			c.OK(cn, fd.Pos(), "no special case for the text null")
+		}
+	}
+}
+
+func runN6(c *core.Ctx) {
+	p := c.Prog
+	pk := p.Pkg("internal/decoder/optdec")
+	fd := core.FuncDecl(pk, "Node", "AsByte")
+	cn := "internal/decoder/optdec.(Node).AsByte/unsigned-only"
+	if fd == nil || fd.Body == nil {
+		c.Undecided(cn, token.NoPos, "not found")
+		return
+	}
+	c.Analysed(core.FuncName(pk, fd))
+	var bad token.Pos
+	ast.Inspect(fd.Body, func(n ast.Node) bool {
+		if id, ok := n.(*ast.Ident); ok && id.Name == "KSint" {
+			bad = id.Pos()
+		}
+		return true
+	})
+	if bad != token.NoPos {
+		c.Bad(cn, bad, "AsByte accepts a signed node: `[-0]` decodes into a []byte under the alternative decoder although -0 is not an unsigned literal")
+	} else {
+		c.OK(cn, fd.Pos(), "only unsigned nodes are accepted")
+	}
+}
